@@ -55,6 +55,20 @@ func (q quote) libForm(form int) *bt.FeeQuote {
 		fq.AddQuote(bt.FeeTypeStandard, got)
 		fq.AddQuote(bt.FeeTypeData, &cp)
 		return fq
+	case 9:
+		// two miners' quotes were filled with the SAME Fee objects; the other miner's fees are then
+		// refreshed through UpdateMinerFees with other rates: this miner's quote still says q
+		fqs := bt.NewFeeQuotes("a")
+		fqs.AddMiner("b", bt.NewFeeQuote())
+		qa, _ := fqs.Quote("a")
+		qb, _ := fqs.Quote("b")
+		for _, fq := range []*bt.FeeQuote{qa, qb} {
+			fq.AddQuote(bt.FeeTypeStandard, std)
+			fq.AddQuote(bt.FeeTypeData, data)
+		}
+		_, _ = fqs.UpdateMinerFees("a", bt.FeeTypeStandard, &bt.Fee{FeeType: bt.FeeTypeStandard, MiningFee: bt.FeeUnit{Satoshis: 977, Bytes: 3}, RelayFee: bt.FeeUnit{Satoshis: 977, Bytes: 3}})
+		_, _ = fqs.UpdateMinerFees("a", bt.FeeTypeData, &bt.Fee{FeeType: bt.FeeTypeData, MiningFee: bt.FeeUnit{Satoshis: 13, Bytes: 7}, RelayFee: bt.FeeUnit{Satoshis: 13, Bytes: 7}})
+		return qb
 	case 7, 8:
 		// an existing quote object (fresh defaults / filled with other rates through AddQuote) is
 		// refreshed from a JSON document carrying the wanted rates: afterwards it IS that quote
